@@ -2,7 +2,7 @@ SPECIFICATION MCSpec
 CONSTANTS
     BufCap = 3
     Ls = {3}
-    Ns = {-1, 0, 1, 2, 3, 4}
+    Ns = {99, 0, 1, 2, 3, 4}
     Opts = {0, 1, 4}
     Sizes = {2}
     MaxSends = 7
